@@ -65,11 +65,25 @@ func main() {
 	ctx := &Ctx{Prop: prop, Tier: *tier, Seed: *seed, Rng: rand.New(rand.NewSource(*seed)),
 		Driver: *driver, Res: res}
 
+	// Circuit breaker: when three cases have each taken seconds AND failed their oracle (a hang, a
+	// deadlock, a reader that never gives up), the verdict is settled; the remaining cases are
+	// skipped so that a run on a broken tree ends in minutes instead of one time-out per case.
+	slowFailures, skipped := 0, 0
 	emit := func(class, op string) {
+		if slowFailures >= 3 && *replay == "" {
+			skipped++
+			res.Extra["skipped_after_repeated_slow_failures"] = skipped
+			return
+		}
+		t0 := time.Now()
 		obs := execOp(op)
+		took := time.Since(t0)
 		cs := Case{Class: class, Op: op, Impl: obs.Line, Branch: obs.Branch, NoModel: obs.NoModel || *noModel}
 		if p.Oracle != nil {
 			cs.Oracle = p.Oracle(op, obs)
+		}
+		if cs.Oracle != "" && took > 4*time.Second {
+			slowFailures++
 		}
 		if p.NonTrivial != nil {
 			cs.NonTrivial = p.NonTrivial(op, obs)
